@@ -43,8 +43,13 @@ theorem last_wins_relative (p : Policy) (a b : Bool) :
     applyOp d (applyOp d p (.allowRelativeURLs a)) (.allowRelativeURLs b) =
     applyOp d p (.allowRelativeURLs b) := rfl
 
+theorem ensureInit_idem (p : Policy) : p.ensureInit.ensureInit = p.ensureInit := by
+  unfold Policy.ensureInit; split <;> simp_all
+
 theorem last_wins_unsafe (p : Policy) (a b : Bool) :
-    applyOp d (applyOp d p (.allowUnsafe a)) (.allowUnsafe b) = applyOp d p (.allowUnsafe b) := rfl
+    applyOp d (applyOp d p (.allowUnsafe a)) (.allowUnsafe b) = applyOp d p (.allowUnsafe b) := by
+  simp only [applyOp, BuilderOp.callsInit, ↓reduceIte, applyOpInit]
+  cases hi : p.initialized <;> simp [Policy.ensureInit, hi]
 
 theorem last_wins_sandbox (p : Policy) (a b : List Bytes) :
     applyOp d (applyOp d p (.requireSandboxOnIFrame a)) (.requireSandboxOnIFrame b) =
@@ -86,10 +91,12 @@ theorem map_update_contains {ν} (m : Map Bytes ν) (k k' : Bytes) (dflt : ν) (
         exact ih h
 
 /-- `AllowElements` never removes an element: what was allowed stays allowed -/
-theorem allowElements_monotone (p : Policy) (names : List Bytes) (el : Bytes)
+theorem allowElements_monotone (p : Policy) (hi : p.initialized = true) (names : List Bytes) (el : Bytes)
     (h : Spec.allowsElement p el = true) :
     Spec.allowsElement (applyOp d p (.allowElements names)) el = true := by
-  simp only [applyOp]
+  have he : p.ensureInit = p := by simp [Policy.ensureInit, hi]
+  simp only [applyOp, BuilderOp.callsInit, ↓reduceIte, he, applyOpInit]
+  clear he hi
   induction names generalizing p with
   | nil => simpa using h
   | cons n ns ih =>
@@ -104,7 +111,8 @@ theorem allowElements_monotone (p : Policy) (names : List Bytes) (el : Bytes)
 /-- element names are case-insensitive (ASCII) -/
 theorem allowElements_case (p : Policy) (names : List Bytes) :
     applyOp d p (.allowElements (names.map lowerAscii)) = applyOp d p (.allowElements names) := by
-  simp only [applyOp, toLowerName]
+  simp only [applyOp, BuilderOp.callsInit, ↓reduceIte, applyOpInit, toLowerName]
+  generalize p.ensureInit = p
   induction names generalizing p with
   | nil => rfl
   | cons n ns ih =>
